@@ -10,7 +10,7 @@ import random
 from harness import common, export, gen
 from harness.props import _hier
 LEVEL = _hier.LEVEL
-EXTRA_PROPS_FILES = ["Scfg/Props/C05Join.lean"]
+EXTRA_PROPS_FILES = ["Scfg/Props/C05Join.lean", "Scfg/Props/C05Chain.lean"]
 
 
 def aliasing_runs(ctx):
